@@ -99,6 +99,9 @@ func (vr *VersionResponse) Decode(e enc.Encoder, response []byte) error {
 	}
 
 	response = response[1:]
+	if len(response) < 2 {
+		return errors.Errorf("Version response too short")
+	}
 
 	u, err := strconv.ParseInt(string(response[0:2]), 36, 16)
 	if err != nil {
